@@ -142,8 +142,19 @@ def run_unit(unit, repo=vgen.REPO, rlimit=None, use_cache=True, keep=None):
         res['total_ms'] = out.get('times-ms', {}).get('total', 0)
         for m in smt.get('smt-run-module-times', []):
             for f in m.get('function-breakdown', []):
-                short = f['function'].split('::')[-1]
-                r = fn_region.get(short) if m['module'] == 'unit' else None
+                parts = f['function'].split('::')
+                short = parts[-1]
+                r = None
+                if m['module'] == 'unit':
+                    # `unit::Type::method` -> the region extracted as `impl Type::method` / `Trait for Type::method`
+                    if len(parts) >= 2:
+                        tm = parts[-2] + '::' + short
+                        for rg in regions:
+                            if rg.name and (rg.name.endswith(' ' + tm) or rg.name.endswith(' ' + tm.split('::')[0] + '::' + short) or rg.name == tm):
+                                r = rg
+                                break
+                    if r is None:
+                        r = fn_region.get(short)
                 res['functions'].append(dict(name=f['function'], module=m['module'], mode=f.get('mode:'), ok=f['success'],
                                              micros=f.get('time-micros'), rlimit=f.get('rlimit'),
                                              props=(r.props if r else None), region=(r.name if r else None), kind=(r.kind if r else 'prelude')))
@@ -161,6 +172,15 @@ def run_unit(unit, repo=vgen.REPO, rlimit=None, use_cache=True, keep=None):
         line = prim[0]['line_start'] if prim else None
         cls = classify_msg(msg)
         r = region_of(line) if line else None
+        # a postcondition declared on a TRAIT method that fails for one implementation is reported at the
+        # trait's ensures clause; the implementation (secondary span) is the function under contract
+        if r is not None and r.name.startswith('trait '):
+            for sp in d.get('spans', []):
+                if not sp.get('is_primary') and sp.get('line_start'):
+                    r2 = region_of(sp['line_start'])
+                    if r2 is not None and r2 is not r:
+                        r = r2
+                        break
         label = None
         labels = []
         if line:
